@@ -201,7 +201,13 @@ fn build(c: &OpCase) -> (SpecId, r::World, r::Block, r::Tx) {
 }
 
 fn run_op(c: &OpCase) -> OpRun {
+    run_op_at(c, None)
+}
+
+/// Same world and transaction, optionally executed under another spec of the same family.
+fn run_op_at(c: &OpCase, spec_override: Option<SpecId>) -> OpRun {
     let (spec, pre, block, tx) = build(c);
+    let spec = spec_override.unwrap_or(spec);
     let env = op_env(spec, &block, &tx, &c.kind, None);
     let db = ModelDB::new(pre.clone());
     let mut evm = Evm::builder()
@@ -626,7 +632,11 @@ pub fn c22_op_case(c: &OpRewardCase) -> CaseResult {
     let is_deposit = matches!(c.case.kind, Kind::Deposit { .. });
     let to = tx.to.as_ref().map(ra);
     // which parties does the execution itself move value to/from?  (recorded on a plain rewards-on run)
-    let probe = run_op(&c.case);
+    // (at the spec the reconfigured handler finally runs with: the execution, and with it the value flows, may differ between specs)
+    let probe = run_op_at(&c.case, Some(s1));
+    if probe.res.is_err() {
+        return Err(vec![Failure::new("C22|harness|probe-run-rejected", format!("the recording run at {s1:?} was rejected although both compared runs were accepted: {:?}", probe.res.as_ref().err()))]);
+    }
     let untouched = parties.iter().all(|p| !probe.rec.flow_addrs.contains(p)) && !parties.contains(&sender) && to.map(|t| !parties.contains(&t)).unwrap_or(true) && probe.rec.ops[0xff] == 0;
     let mut paid_on = BigUint::zero();
     for p in &parties {
